@@ -171,7 +171,7 @@ template <class TM, class TO> static void maps_real(uint64_t seed, int n) {
     for (int t = 0; t < n; t++) { TM a = (TM)full(-12, 12); TM b = model == 2 ? (TM)0 : (TM)((long double)a * (0.1L + 3.0L * (long double)U(g)));      // a = mu ; b = lambda or bulk viscosity
       Solid<TM> so(ShearModulus<TM>(a, PA), LameFirstModulus<TM>(b, PA)); CFluid<TM> cf(DynamicViscosity<TM>(a, UV), BulkDynamicViscosity<TM>(b, UV)); IFluid<TM> inf(DynamicViscosity<TM>(a, UV));
       const ConstitutiveModel& base = model == 0 ? (const ConstitutiveModel&)so : model == 1 ? (const ConstitutiveModel&)cf : (const ConstitutiveModel&)inf;
-      TO x[6]; int ex = (int)(g() % 21) - 10; for (auto& v : x) v = (TO)(full(ex, ex) * ((g() & 1) ? 1 : -1)); SymmetricDyad<TO> X(x[0], x[1], x[2], x[3], x[4], x[5]);
+      TO x[6]; int ex = (t % 3 == 1) ? (int)(g() % 111) - 80 : (int)(g() % 21) - 10;   /* also very small tensors (micro-strains and far below): the maps are linear */ for (auto& v : x) v = (TO)(full(ex, ex) * ((g() & 1) ? 1 : -1)); SymmetricDyad<TO> X(x[0], x[1], x[2], x[3], x[4], x[5]);
       std::vector<TO> out; Qd A = (Qd)a, B = (Qd)b; Qd tr = (Qd)x[0] + (Qd)x[3] + (Qd)x[5], atr = fabsq((Qd)x[0]) + fabsq((Qd)x[3]) + fabsq((Qd)x[5]);
       Qd c1, c2;                                                               // result = c1 * X + c2 * tr(X) * I
       if (fn == 0) { c1 = 2 * A; c2 = B; } else { c1 = 1 / (2 * A); c2 = -B / (2 * A * (2 * A + 3 * B)); }
